@@ -129,6 +129,16 @@ class BndEval:
         base = place_local(p)
         projs = place_projs(p)
         fs = proj_fields(projs)
+        # `S.find(p)?`: the Continue payload of Try::branch over the find() result
+        if any(isinstance(e, list) and e[0] == "d" and e[1] == "Continue" for e in projs):
+            for d in f.whole_defs(base):
+                if d[0] == "call" and (d[2].get("fn") or "").endswith("Try::branch") and d[2]["args"] and op_local(d[2]["args"][0]) is not None:
+                    for d2 in f.whole_defs(op_local(d[2]["args"][0])):
+                        if d2[0] == "call" and FIND_FAMILY.search(d2[2].get("res") or ""):
+                            if self.strid(d2[2]["args"][0]) == S:
+                                return True, "match start of %s(..)? on the same string" % d2[2]["res"].split("::")[-1]
+                            return False, "match offset of another string (%s)" % (self.descr_str(d2[2]["args"][0]))
+            return False, "payload of `?` not produced by find() on the sliced string"
         # Option::Some payload of find()
         if any(isinstance(e, list) and e[0] == "d" and e[1] == "Some" for e in projs):
             for d in f.whole_defs(base):
@@ -1260,6 +1270,10 @@ def r7_index_bounds(ctx):
                     why = _nonempty_dominating(ev, f, bb, c["args"][0])
                 if why is None:
                     why = _below_len(ev, f, bb, idx, c["args"][0], coll, facts)
+            elif rng is not None and coll is not None and rng[0] == "RangeFrom":
+                w = _len_of(ev, f, rng[1], coll) or ev.key(rng[1]) == ("const", "0") or _below_len(ev, f, bb, rng[1], c["args"][0], coll, facts)
+                if w:
+                    why = "range start within the collection (%s)" % (w if isinstance(w, str) else "0 / len()")
             elif rng is not None and coll is not None and rng[0] == "Range":
                 a_, b_ = rng[1], rng[2]
                 end_ok = _len_of(ev, f, b_, coll) or _below_len(ev, f, bb, b_, c["args"][0], coll, facts)
@@ -1297,6 +1311,32 @@ def _below_len(ev, f, bb, op, coll_op, coll, facts, depth=0):
                             ok_t = [tg for v, tg in t4[2] if v == 1] or ([t4[3]] if t4[3] is not None else [])
                             if ok_t and (ok_t[0] == bb or ok_t[0] in dom) and _unmodified_between(f, var, cb, bb, ev.dom):
                                 return "behind the Some edge of get() with the same index"
+    # the Some payload of `coll.iter().position(..)` / `rposition(..)` is an index of an existing element
+    l0 = op_local(op)
+    seenp = set()
+    while l0 is not None and l0 not in seenp:
+        seenp.add(l0)
+        ds0 = f.whole_defs(l0)
+        if len(ds0) != 1 or ds0[0][0] != "assign" or ds0[0][3][0] != "use":
+            break
+        p0 = op_place(ds0[0][3][1])
+        if p0 is None:
+            break
+        if any(isinstance(e, list) and e[0] == "d" and e[1] in ("Some", "Continue") for e in place_projs(p0)):
+            for d1 in f.whole_defs(place_local(p0)):
+                c1 = d1[2] if d1[0] == "call" else None
+                if c1 is not None and (c1.get("fn") or "").endswith("Try::branch") and c1["args"]:
+                    for d2 in f.whole_defs(op_local(c1["args"][0])) if op_local(c1["args"][0]) is not None else []:
+                        if d2[0] == "call":
+                            c1 = d2[2]
+                if c1 is not None and re.search(r"::(position|rposition)$", (c1.get("fn") or "") + " " + (c1.get("res") or "")) and c1["args"]:
+                    srcs = {_coll_id(f, ["cp", x]) for x in _iter_sources(f, c1["args"][0])}
+                    pos_bb = d1[1] if d1[0] == "call" and d1[2] is c1 else next((b for b, cc in f.calls() if cc is c1), None)
+                    if cid in srcs and pos_bb is not None and pos_bb in dom and not _mut_ref_between(f, cid, pos_bb, bb) \
+                            and not re.search(r"\b(Skip|SkipWhile|StepBy|Rev|Chain|Filter|FilterMap)<", " ".join(c1.get("targs", []))):
+                        return "index returned by position() over the same collection (not mutated in between)"
+            break
+        l0 = place_local(p0)
     # a variable initialised from a bounded value and otherwise only decreased
     if var is not None and depth < 2:
         ds = f.whole_defs(var)
@@ -1325,6 +1365,35 @@ def _below_len(ev, f, bb, op, coll_op, coll, facts, depth=0):
             if all(_below_len(BndEval(ev.crate, f, ib), f, ib, src, coll_op, coll, facts, depth + 1) for ib, src in inits):
                 return "starts below len() and is only decreased"
     return None
+
+
+def _mut_ref_between(f, cid, start, site):
+    """is a mutable borrow of the collection taken on some path from block `start` to block `site` that does not pass through
+    `start` again (the value computed at `start` is recomputed on every such passage)?"""
+    preds = f.preds()
+    bwd, st = {site}, [site]
+    while st:
+        x = st.pop()
+        if x == start:
+            continue
+        for p2 in preds.get(x, []):
+            if p2 not in bwd:
+                bwd.add(p2)
+                st.append(p2)
+    fwd, st = {start}, [start]
+    while st:
+        x = st.pop()
+        if x == site:
+            continue
+        for s2 in f.succs(x):
+            if s2 not in fwd and s2 in bwd:
+                fwd.add(s2)
+                st.append(s2)
+    between = (fwd & bwd) - {start}
+    for b, si, pl, rv, sp in f.assigns():
+        if b in between and rv[0] == "ref" and rv[1] == "mut" and _coll_id(f, ["cp", rv[2]]) == cid:
+            return True
+    return False
 
 
 def _le(ev, f, bb, a, b, facts):
